@@ -8,30 +8,37 @@ Structure (for the lead, who extends this plugin with the dataflow-machine theor
   * ORACLES: list of functions (prog, g, cfg, ops, impl) -> list of failure strings: independent, written from the property text.
 """
 import os, json, concurrent.futures
-import pv, pvptg, ptg_gen
+import pv, pvptg, ptg_gen, pvptgrt
 PROP = 'C01'
 LEAN_MODULE = 'ParsecVerif.Props.C01'
-DRIVERS = ['pv_PTG']
+DRIVERS = ['pv_PTG', 'pv_PTGRT']
 THEOREMS = ['ParsecVerif.C01.C01_space_nodup', 'ParsecVerif.C01.C01_instances_nodup', 'ParsecVerif.C01.C01_space_eq_constraints',
             'ParsecVerif.C01.C01_count', 'ParsecVerif.C01.C01_local_instances_nodup', 'ParsecVerif.C01.C01_local_partition',
             'ParsecVerif.C01.C01_startup_partial', 'ParsecVerif.C01.C01_startup_full_false', 'ParsecVerif.C01.negstep_startup_creates_nothing',
             'ParsecVerif.C01.negstep0_startup_diverges', 'ParsecVerif.C01.negstep_target_dropped',
-            'ParsecVerif.Ptg.nodup_enumSem', 'ParsecVerif.Ptg.mem_enumSem_iff', 'ParsecVerif.Ptg.startupSem_eq']
+            'ParsecVerif.Ptg.nodup_enumSem', 'ParsecVerif.Ptg.mem_enumSem_iff', 'ParsecVerif.Ptg.startupSem_eq',
+            # runtime half: the abstract runtime (generic dataflow machine) on the task graph of the program
+            'ParsecVerif.C01.C01_graph_wf', 'ParsecVerif.C01.C01_exactly_once', 'ParsecVerif.C01.C01_never_twice', 'ParsecVerif.C01.C01_no_deadlock',
+            'ParsecVerif.C01.C01_terminates', 'ParsecVerif.PtgRt.graphOf_WF', 'ParsecVerif.PtgRt.log_nodes_lt',
+            'ParsecVerif.Runtime.completes_at_most_once', 'ParsecVerif.Runtime.quiescent_all_once', 'ParsecVerif.Runtime.maximal_run_is_quiescent',
+            'ParsecVerif.Runtime.deadlock_free', 'ParsecVerif.Runtime.step_decreases', 'ParsecVerif.Runtime.only_graph_nodes_run']
 IMPL = ('parsec/interfaces/ptg/ptg-compiler/jdf2c.c (jdf_generate_internal_init, jdf_generate_startup_tasks, jdf_generate_direct_input_conditions, successor iterator) '
         '+ the runtime executing the generated programs (parsec/parsec.c, parsec/scheduling.c)')
 ENGINE = 'lean-trace'
-LEVEL = 'other'
-LEVEL_TEXT = ('PART of C01 is a Lean 4 theorem, for every program of the JDF AST and arbitrary range functions: the execution space enumerated by the generated internal_init '
-              'has no duplicates (within and across classes), equals the set of local assignments satisfying the range constraints, the announced number of tasks equals the '
-              'number of local instances for every rank / process count, every instance is local to exactly one rank, and — with positive steps — the generated startup function '
-              'creates exactly the startup instances, once each. The unrestricted startup statement is proved FALSE of the generated code (negative steps: kernel-checked witnesses, '
-              'replayed on the real code on every run; known finding). The "exactly once under every schedule" half (dataflow machine, C07 per-word lemma) is NOT yet a theorem: '
-              'it is explored by whole-program runs — random valid programs compiled by the current ptgpp (both dependency back-ends), run under several schedulers, thread counts '
-              'and startup chunk settings; executed multiset, announced count and begin/end order are compared with the compiled Lean model (space, WellFormed edges) and with an '
-              'independent Python oracle written from the property text.')
-LEVEL_NOTE = ('Level "other" until the dataflow-machine theorem (C01_exactly_once) is added by the lead on top of Model/Ptg.lean (WellFormed is its hypothesis). What is a theorem: '
-              'space/count/startup enumeration (this file). What is sampling: every run of the real runtime (schedules are whatever the OS gives; 3 configurations x 2 chunk settings '
-              'in the quick tier). Not covered: user-defined startup/make_key functions, local-index definitions, %option, GPU chores, recursive tasks, multi-rank runs (C05). '
+LEVEL = 'proof'
+LEVEL_TEXT = ('Lean 4 theorems, for every program of the JDF AST and arbitrary range functions. Enumeration half: the execution space enumerated by the generated internal_init has no duplicates (within and '
+              'across classes), equals the set of local assignments satisfying the range constraints, the announced number of tasks equals the number of local instances for every rank / process count, '
+              'every instance is local to exactly one rank, and — with positive steps — the generated startup function creates exactly the startup instances, once each. Runtime half: the task graph '
+              'graphOf p of every WellFormed program (decidable: startup function = startup subset of the space, out-edges of the successor iterators = in-edges named by the consumers, inside the space, '
+              'forward in enumeration order) is a well-formed dataflow graph (C01_graph_wf), hence for EVERY scheduler choice, worker count, AGAIN pattern and interleaving of the abstract runtime '
+              '(ready / running / ended, one release transition per dependency): in every maximal run every instance of the space has completed exactly once and every event of the trace belongs to an '
+              'instance of the space (C01_exactly_once); at no moment has an instance completed twice (C01_never_twice); a run that is not complete can be extended (C01_no_deadlock) and every transition '
+              'decreases a natural measure (C01_terminates). The UNRESTRICTED statement is proved FALSE of the generated code for negative steps (C01_startup_full_false and witnesses, replayed on the real '
+              'code on every run; known finding): such programs are outside WellFormed. Tie: whole-program runs of generated programs; every trace is replayed on the model (pv_PTG) and accepted step by '
+              'step by the dataflow machine of graphOf p (pv_PTGRT).')
+LEVEL_NOTE = ('Theorem: enumeration / counting / startup enumeration, and exactly-once for all schedules of the ABSTRACT runtime on the program\'s graph. The per-dependency-word step "exactly one release sees '
+              'the word complete" is C07\'s theorem; the chunked startup re-entry is C16_startup_chunks. Sampling: every run of the real runtime (schedules are whatever the OS gives; 3 configurations x 2 '
+              'chunk settings in the quick tier). Not covered: user-defined startup/make_key functions, local-index definitions, %option, GPU chores, recursive tasks, multi-rank runs (C05). '
               'Trusted: Lean kernel, propext/Classical.choice/Quot.sound, generator (JDF text and AST from one value; validated per case), harness/ptg_rt.c.')
 TECHNIQUE = 'Lean 4 proofs about the enumeration semantics of the generated code + differential whole-program runs with a begin/end trace acceptor'
 ASSUMPTIONS = ['task bodies terminate and are test-owned (they only log and move small integers)', 'values fit int32', 'single process (multi-rank is C05)']
@@ -86,7 +93,18 @@ def oracle_exactly_once(prog, g, cfg, ops, impl):
     return fails
 
 
-ACCEPTORS = [model_acceptor]
+def rt_acceptor(ctx, prog, g, cfg, ops, impl):
+    """the begin / end trace must be accepted step by step by the dataflow machine of graphOf p (every start enabled: the node is
+    ready after saturating the releases of the nodes that have ended; every end of a running node; quiescent at the end)"""
+    if has_nonpositive_const_step(prog):
+        return []          # outside WellFormed (known finding): the machine theorem does not speak about these programs
+    tr = pvptgrt.parse_events('\n'.join('%s => %s' % (o, r) for o, r in zip(ops, impl)))
+    c = {'iter': cfg[2], 'chunk': cfg[3]}
+    rops, rimpl = pvptgrt.rt_ops(prog, g, tr, c, with_data=False)
+    return pvptgrt.compare_rt(rops, rimpl, strip_data=True)[:5]
+
+
+ACCEPTORS = [model_acceptor, rt_acceptor]
 ORACLES = [oracle_exactly_once]
 
 
@@ -130,7 +148,7 @@ def one_run(ctx, prog, g, exe, backend, cfg):
     expect_neg = has_nonpositive_const_step(prog)
     r = {'fails': [], 'dis': [], 'crash': None, 'n': 0, 'known': []}
     rc, out, err = pvptg.run_exe(exe, g, threads=threads, sched=sched, timeout_ms=700 if expect_neg else 20000,
-                                 extra_env={'PARSEC_MCA_task_startup_iter': str(it), 'PARSEC_MCA_task_startup_chunk': str(ch)})
+                                 extra_env={'PARSEC_MCA_task_startup_iter': str(it), 'PARSEC_MCA_task_startup_chunk': str(ch), 'PTG_FAST_EXIT': '1'})
     ops, impl, stats, viols = pv.parse_transcript(out)
     r['n'] = len(ops)
     if rc not in (0, 3) or not ops:
@@ -144,7 +162,7 @@ def one_run(ctx, prog, g, exe, backend, cfg):
         tries = 6
         for _ in range(tries):
             rc2, out2, err2 = pvptg.run_exe(exe, g, threads=threads, sched=sched, timeout_ms=20000,
-                                            extra_env={'PARSEC_MCA_task_startup_iter': str(it), 'PARSEC_MCA_task_startup_chunk': str(ch)})
+                                            extra_env={'PARSEC_MCA_task_startup_iter': str(it), 'PARSEC_MCA_task_startup_chunk': str(ch), 'PTG_FAST_EXIT': '1'})
             again += rc2 not in (0, 3)
             if again:
                 break
@@ -182,9 +200,8 @@ def run(ctx, res, cases=None):
         progs = cases
     # the index-array back-end cannot hold parameters defined by expressions (compile error / assertion in find_deps: docs/notes/PTG.md)
     wanted = [(p, b) for p in progs for b in pvptg.BACKENDS if b == pvptg.BACKENDS[0] or not has_derived_param(p)]
-    built, err = pvptg.build_many(ctx, progs, pvptg.BACKENDS, pairs=wanted)
-    if built is None:
-        res.infra_errors.append(err); return
+    pv.mpi_flags()
+    built = pvptgrt.build_all(ctx, wanted)      # compiled programs are cached under .work/ptgcache (shared with C02 / C16)
     cfgs = configs(ctx, rng)
     work = []
     wf_count = {'true': 0, 'false': 0}
@@ -210,6 +227,20 @@ def run(ctx, res, cases=None):
                     sel = sel[:2]
                 for cfg in sel:
                     work.append((p, g, exe, b, cfg))
+    # the re-entry logic of the startup generator on a class with MORE startup tasks than task_startup_chunk:
+    # iter in {0,1,2,3} x chunk in {1,2,3,7} on corpus/C16/001 (30 startup instances); a restarted / skipped enumeration shows up
+    # as instances that ran twice / never in oracle_exactly_once and as a rejected event in both acceptors
+    if cases is None:
+        try:
+            sp = pvptgrt.many_startup_program()
+            sexe, slog = pvptgrt.build_cached(ctx, sp, pvptg.BACKENDS[0])
+            if sexe is None:
+                res.infra_errors.append('startup-sweep program does not build: ' + slog[-400:])
+            else:
+                progs = progs + [sp]
+                work = [(sp, sp.gvecs[0], sexe, pvptg.BACKENDS[0], (c['sched'], c['threads'], c['iter'], c['chunk'])) for c in pvptgrt.startup_sweep()] + work
+        except Exception as e:
+            res.infra_errors.append('startup sweep: %r' % e)
     results = []
     bad = 0
     with concurrent.futures.ThreadPoolExecutor(max_workers=5) as ex:
